@@ -21,12 +21,13 @@ fn entry_str(g: &Guarded, e: pelite::Result<Entry>) -> String {
 	match e {
 		Err(e) => format!("!{}", errname(e)),
 		Ok(Entry::CodeView(cv)) => match cv {
-			CodeView::Cv20 { image, .. } => format!("cv20(img={},sig={},off={},ts={},age={},fmt={},name={})",
+			CodeView::Cv20 { image, .. } => format!("cv20(img={},sig={},off={},ts={},guid=none,age={},fmt={},name={})",
 				tref(g, image, 16), image.CvSignature, image.Offset, image.TimeDateStamp, cv.age(), hex(cv.format().as_bytes()), cs(g, cv.pdb_file_name())),
 			CodeView::Cv70 { image, .. } => {
-				let guid = unsafe { std::slice::from_raw_parts(&image.Signature as *const GUID as *const u8, 16) };
-				format!("cv70(img={},sig={},guid={},age={},fmt={},name={})",
-					tref(g, image, 24), image.CvSignature, hex(guid), cv.age(), hex(cv.format().as_bytes()), cs(g, cv.pdb_file_name()))
+				let sig: &GUID = &image.Signature;
+				let guid = unsafe { std::slice::from_raw_parts(sig as *const GUID as *const u8, 16) };
+				format!("cv70(img={},sig={},off=none,ts=none,guid={}={},age={},fmt={},name={})",
+					tref(g, image, 24), image.CvSignature, tref(g, sig, 16), hex(guid), cv.age(), hex(cv.format().as_bytes()), cs(g, cv.pdb_file_name()))
 			},
 		},
 		Ok(Entry::Dbg(d)) => { let im = d.image(); format!("dbg(img={},dt={},len={},uni={})", tref(g, im, 12), im.DataType, im.Length, im.Unicode) },
